@@ -94,7 +94,7 @@ UNIT = dict(
     dict(id='push_null', entry='h_push_null', cls='shape-complete', unwind=10),
     dict(id='segment_empty', entry='h_segment_empty', cls='shape-complete', defs={'KMAX': 4, 'SMAX': 4}, unwind=17, flags=['--object-bits', '10']),
     dict(id='init', entry='h_init', cls='shape-complete', defs={'KMAX': 4, 'SMAX': 4}, unwind=17),
-    dict(id='dtor', entry='h_dtor', cls='shape-complete', defs={'KMAX': 3, 'SMAX': 3}, unwind=10, unwindset=['kbq_dtor.0:10']),
+    dict(id='dtor', entry='h_dtor', cls='shape-complete', defs={'KMAX': 3, 'SMAX': 3}, unwind=10, unwindset=['kbq_dtor.0:10'], solver=['--sat-solver', 'cadical'], note='minisat does not finish on this instance, cadical needs 0.2 s'),
     dict(id='committed_int', entry='h_committed_int', mode='INT', cls='shape-complete', defs={'KMAX': 3, 'SMAX': 4}, unwind=13, flags=['--object-bits', '10'],
          note='k in 1..3, segments in 1..4; environment = transitive closure of the other threads\' moves (rely in assumptions)'),
     dict(id='push_int', entry='h_push_int', mode='INT', cls='shape-complete', defs={'KMAX': 2, 'SMAX': 2, 'XV_STUB': 1}, unwind=5,
